@@ -5,8 +5,12 @@ import sys
 VERIF = os.path.dirname(os.path.dirname(os.path.abspath(__file__)))
 if VERIF not in sys.path:
     sys.path.insert(0, VERIF)
-if "/repo" not in sys.path:
-    sys.path.insert(0, "/repo")
+REPO = os.environ.get("VERIF_REPO", "/repo").rstrip("/")
+if REPO != "/repo":
+    os.environ["VERIF_NO_EVIDENCE"] = "1"
+    os.environ.setdefault("VERIF_REPLAY_DIR", "/tmp/verif-replays-" + REPO.strip("/").replace("/", "_"))
+if REPO not in sys.path:
+    sys.path.insert(0, REPO)
 
 
 def main(argv):
